@@ -134,6 +134,8 @@ def run(ctx, scale):
     # two-digit slot numbers (the default max_retained_runs is 10): the crash comes exactly where the slot number wraps from M to 1
     for M, crash in ([(10, "run_after_slot_setup"), (11, "sigkill")] if ctx.quick() else [(10, "run_after_slot_setup"), (10, "sigkill"), (11, "run_after_slot_setup"), (12, "run_before_store_result"), (20, "run_after_slot_setup")]) * scale:
         scenario(ctx, random.Random(rng.getrandbits(32)), M, M, crash)
+    # three-digit retention (no wrap-around in reach: the point is the slot naming and the model's range)
+    scenario(ctx, random.Random(rng.getrandbits(32)), 100, 2, "run_before_store_result")
     # one history with no completed run at all
     scenario(ctx, random.Random(rng.getrandbits(32)), 2, 0, "run_save_after_truncate")
     scenario(ctx, random.Random(rng.getrandbits(32)), 2, 0, "run_after_slot_setup")
